@@ -433,13 +433,13 @@ func Dump(kv storage.KvStorage) []KV {
 
 // Rec is a decoded record of the MVCC layout.
 type Rec struct {
-	Raw      bool // not an MVCC record (compact key, election key, ...)
-	Key      string
-	Rev      uint64 // 0 = index record
-	Val      []byte
-	IdxRev   uint64 // index record: revision stored
-	IdxTomb  bool   // index record: deletion flag
-	RawKey   []byte
+	Raw     bool // not an MVCC record (compact key, election key, ...)
+	Key     string
+	Rev     uint64 // 0 = index record
+	Val     []byte
+	IdxRev  uint64 // index record: revision stored
+	IdxTomb bool   // index record: deletion flag
+	RawKey  []byte
 }
 
 // Decode interprets a dump.
